@@ -241,13 +241,18 @@ func ReactScenarios() []History {
 		Ev{Name: "Obs"},
 		Ev{Name: "Withdraw", Signer: "p3"},
 		Ev{Name: "ModUpdate", Signer: "c1", ID: 5, Provs: []string{"p3"}, Thr: 1},
+		// a one-shot context whose consumer gave it a frequency and a total (the only update a one-shot accepts),
+		// still inside its window at the export
+		Ev{Name: "Call", Signer: "c1", Svc: "s1", Provs: []string{"p3"}, Cap: 10, Timeout: 5},
+		eb(1),
+		Ev{Name: "UpdateContext", Signer: "c1", ID: 6, Freq: 6, Total: 2},
 		Ev{Name: "PrepZeroHeight"},
 		Ev{Name: "Genesis"},
 		Ev{Name: "Restart"},
 		Ev{Name: "Bind", Signer: "c1", Svc: "s1", Prov: "c1", Deposit: 40, DShape: "ok", Pr: pr(2), Qos: 1}, // c1 becomes an owner on the new chain
 		Ev{Name: "Call", Signer: "c2", Svc: "s1", Provs: []string{"c1"}, Cap: 10, Timeout: 2},
 		eb(1),
-		Ev{Name: "Respond", Signer: "c1", Rid: rid(6, 1, 1, 0), Kind: "valid"},
+		Ev{Name: "Respond", Signer: "c1", Rid: rid(7, 1, 1, 0), Kind: "valid"},
 		Ev{Name: "Withdraw", Signer: "c1"}, // to the address it chose on the old chain
 	)
 	add("odds-and-ends-at-their-boundaries", smallParams(), map[string]int64{"c2": 8, "c1": 200, "p1": 100, "p3": 100}, ops...)
